@@ -41,3 +41,118 @@ Theorem C06_clen_value :
     val v = zlen (body a) /\ 0 < zlen (body a).
 Proof. exact clen_ok_value. Qed.
 Print Assumptions C06_clen_value.
+
+(* ---- translator tie: the content-length bookkeeping of the model used
+   above (resp_init, resp_step, the history fold, slice_from, fileobj_answer,
+   generator_answer) equals the definitions that harness/py2v_clen.py
+   generates from the current poorwsgi/response.py (gen/ClenGen.v, rewritten
+   on every check run: Response.__init__/write/data/__end_of_response__,
+   FileObjResponse.__init__/data/__end_of_response__,
+   GeneratorResponse.__init__/__end_of_response__, IBytesIO.read_kilo/
+   __iter__), over the Python semantics of lib/Py.v + lib/PyClen.v.
+   [E] is str.encode("utf-8"); [buf_pv r]/[clen_pv r] render the model state
+   as the IBytesIO object and the integer the code keeps; [enc_file f] is a
+   file object with capabilities, content and position. *)
+From Coq Require Import String.
+Require Import PW.lib.Py PW.lib.PyClen PW.gen.RangeGen PW.proofs.RangeGenEq
+  PW.gen.ClenGen PW.proofs.ClenGenEq.
+Open Scope string_scope.
+Open Scope list_scope.
+Open Scope Z_scope.
+
+(* Response(data): str is encoded first, the length is taken of the bytes *)
+Theorem C06_generated_response_init_is_model :
+  forall E w d ct h st, wd_bytes E w = Some d ->
+    gen_response_init E (wd_pv w) ct h st
+    = Ok (PTuple [PNone; buf_pv (resp_init d); clen_pv (resp_init d);
+                  PInt 0; PNone]).
+Proof. exact gen_response_init_eq. Qed.
+Print Assumptions C06_generated_response_init_is_model.
+
+(* write(data), for every buffer, position and tracked length *)
+Theorem C06_generated_response_write_is_model :
+  forall E r w d, wd_bytes E w = Some d ->
+    gen_response_write E (buf_pv r) (clen_pv r) (wd_pv w)
+    = Ok (PTuple [PNone; buf_pv (resp_step r (Write d));
+                  clen_pv (resp_step r (Write d))]).
+Proof. exact gen_response_write_eq. Qed.
+Print Assumptions C06_generated_response_write_is_model.
+
+(* .data returns the whole buffer and leaves the position at the end *)
+Theorem C06_generated_response_data_is_model :
+  forall r,
+    gen_response_data (buf_pv r)
+    = Ok (PTuple [PBytes (buf r); buf_pv (resp_step r ReadData)]).
+Proof. exact gen_response_data_eq. Qed.
+Print Assumptions C06_generated_response_data_is_model.
+
+(* every history of generated write()/.data calls = the model's fold *)
+Theorem C06_generated_write_history_is_model :
+  forall E ops rops r, to_rops E ops = Some rops ->
+    gen_run E ops (st_pv r) = Ok (st_pv (fold_left resp_step rops r)).
+Proof. exact gen_run_eq. Qed.
+Print Assumptions C06_generated_write_history_is_model.
+
+(* construction, any history, make_partial, emission: the whole answer *)
+Theorem C06_generated_response_answer_is_model :
+  forall E w d ops rops ranges,
+    wd_bytes E w = Some d -> to_rops E ops = Some rops ->
+    Forall sane_range ranges ->
+    gen_response_answer E w ops ranges = Some (response_answer d rops ranges).
+Proof. exact gen_response_answer_eq. Qed.
+Print Assumptions C06_generated_response_answer_is_model.
+
+(* FileObjResponse(f): remembered position (tell() only if seekable) and
+   tracked length (fstat size, else BytesIO buffer size, minus the position;
+   else unknown = 0), for every readable binary object *)
+Theorem C06_generated_fileobj_init_is_model :
+  forall f ct h st, f_readable f = true -> f_text f = false ->
+    gen_fileobj_init (enc_file f) ct h st
+    = Ok (PTuple [PNone; enc_file f; PInt (fo_pos f); PInt (fo_clen f);
+                  PInt 0; PNone]).
+Proof. exact gen_fileobj_init_eq. Qed.
+Print Assumptions C06_generated_fileobj_init_is_model.
+
+(* FileObjResponse.data seeks back to the remembered position first *)
+Theorem C06_generated_fileobj_data_is_model :
+  forall f p, f_seekable f = true -> f_readable f = true -> 0 <= p ->
+    gen_fileobj_data (enc_file f) (PInt p)
+    = Ok (PTuple [PBytes (zdrop p (f_data f));
+                  enc_file (set_pos f (p + zlen (zdrop p (f_data f))))]).
+Proof. exact gen_fileobj_data_eq. Qed.
+Print Assumptions C06_generated_fileobj_data_is_model.
+
+(* seekable object of known size, left at ANY position q between
+   construction and emission (.data, the handler): the whole answer *)
+Theorem C06_generated_fileobj_answer_is_model :
+  forall f q ranges,
+    f_readable f = true -> f_text f = false -> f_seekable f = true ->
+    size_known f -> 0 <= f_pos f <= zlen (f_data f) ->
+    Forall sane_range ranges ->
+    gen_fileobj_answer f q ranges
+    = Some (fileobj_answer (f_data f) (f_pos f) ranges).
+Proof. exact gen_fileobj_answer_eq. Qed.
+Print Assumptions C06_generated_fileobj_answer_is_model.
+
+(* GeneratorResponse: declared length, range generator call *)
+Theorem C06_generated_generator_answer_is_model :
+  forall chunks declared ranges,
+    gen_generator_answer chunks declared ranges
+    = Some (generator_answer chunks declared ranges).
+Proof. exact gen_generator_answer_eq. Qed.
+Print Assumptions C06_generated_generator_answer_is_model.
+
+(* iterating the returned IBytesIO (read_kilo until b'') hands over exactly
+   the bytes from its position, in non-empty chunks of at most 1024 *)
+Theorem C06_generated_body_iteration_is_model :
+  forall f fuel,
+    f_readable f = true -> 0 <= f_pos f ->
+    (List.length (rest_of f) < fuel)%nat ->
+    exists chunks,
+      gen_ibytesio_iter (enc_file f) fuel
+      = Ok (PTuple [PList (map PBytes chunks);
+                    enc_file (set_pos f (f_pos f + zlen (rest_of f)))])
+      /\ Some (List.concat chunks) = sent (enc_file f)
+      /\ Forall (fun c => c <> [] /\ zlen c <= 1024) chunks.
+Proof. exact gen_ibytesio_iter_eq. Qed.
+Print Assumptions C06_generated_body_iteration_is_model.
